@@ -436,13 +436,33 @@ func (c CharSpec) Feasibility(maxTrials int, maxFail float64) (refused, borderli
 	if p.Sign() == 0 {
 		return true, false
 	}
+	// The library evaluates p as a float32 derived from a difference of two
+	// float32 entropies of magnitude up to H = log2|U|^Length, so p is only
+	// known to a relative 2^±tau with tau a few float32 spacings at H. A
+	// recipe whose verdict flips inside that band asserts nothing.
 	pf, _ := p.Float64()
+	h := Log2Big(c.Universe())
+	if h < 1 {
+		h = 1
+	}
+	tau := 4*Ulp32(h) + 2e-7
+	verdict := func(q float64) bool {
+		if q >= 1 {
+			return false
+		}
+		return math.Pow(1-q, float64(maxTrials)) > maxFail
+	}
+	lo, hi := pf*math.Exp2(-tau), pf*math.Exp2(tau)
+	v := verdict(pf)
+	if verdict(lo) != v || verdict(hi) != v {
+		return v, true
+	}
 	fail := math.Pow(1-pf, float64(maxTrials))
-	if pf == 1 {
+	if pf >= 1 {
 		fail = 0
 	}
 	if fail > maxFail*0.99 && fail < maxFail*1.01 {
-		return fail > maxFail, true
+		return v, true
 	}
-	return fail > maxFail, false
+	return v, false
 }
